@@ -125,6 +125,10 @@ def explains(broken_item, found):
     """a concrete failing input explains a broken obligation when it is about the same source function"""
     keys = " ".join(v.key for v in found)
     b = broken_item.lower()
+    if "linparams" in b or "c08params" in b or "transform_classes_use_their_order" in b or "linear.py" in b:
+        # the structural unit about the transform classes (spatial/linear.py) failed closed: explained by any new
+        # concrete failing input of a class getter/setter/tensor
+        return any(c in keys for c in ("Rotation", "Scaling", "Shearing", "Translation", "Homogeneous"))
     if "euler" in b or "affine.py" in b or "angles" in b or "order" in b:
         return "euler" in keys.lower()
     if "hmm" in b or "linalg.py" in b or "ashom" in b or "apply" in b:
